@@ -495,15 +495,17 @@ class Plan:
 
     # -- B3: every feature ALONE (and every explicit mode of it): the helper items it needs must come with it, and its
     #        stand-alone code paths must behave like the ones taken next to other features (C09, C10)
-    def solo_cfgs(self):
+    def solo_cfgs(self, which=None):
         rng = random.Random("solo")
         decls = [("u8", [0, 1, 2, 3], "renames"), ("i8", [-10, -5, -4, 3], "renames"), ("i8", list(range(-100, 40)), "ident"),
                  ("i16", [3 * j for j in range(10)], "renames"), ("i8", [-100, -50, 0, 50, 100], "ident"), ("i32", [-1, 0, 1000, (1 << 31) - 1], "ident"),
                  ("usize", [7, (1 << 32) + 7], "ident"), ("u64", list(range(9, 18)), "ident"), ("u8", list(range(0, 256)), "ident"),
                  ("i64", [-(1 << 63), -(1 << 63) + 1, 0, (1 << 63) - 2, (1 << 63) - 1], "renames")]
-        for r, reals, naming in decls:
+        for di, (r, reals, naming) in enumerate(decls):
             gapless = runs_of(reals) == 1
             vs = decorate(reals, r, rng, naming, "shuffle", "dec")
+            if which is not None and di not in which:
+                continue
             p = prim.Proj(r, True)
             pr = {p.model_tmin(), p.model_tmax()}
             for x in (reals if len(reals) <= 12 else reals[:3] + reals[-3:] + reals[126:130]):
@@ -670,7 +672,9 @@ class Plan:
     def hostile_enum_names(self, names=("Some", "None", "Ok", "Err", "Option", "Result", "Iterator", "IntoIterator", "DoubleEndedIterator",
                                         "ExactSizeIterator", "FusedIterator", "From", "Into", "TryFrom", "FromStr", "Copy", "Clone", "Debug",
                                         "Display", "Formatter", "Error", "Sized", "Default", "Self_", "RangeInclusive", "MaybeUninit", "Map",
-                                        "Copied", "IntoIter", "Iter", "Vec", "String", "Box", "r#async", "r#type", "Größe", "列挙")):
+                                        "Copied", "IntoIter", "Iter", "Vec", "String", "Box", "r#async", "r#type", "Größe", "列挙",
+                                        # names that generated generic methods use for their type parameters (fold<B, F>, ...)
+                                        "B", "F", "T", "I", "R", "P", "U", "Acc", "G", "S")):
         rng = self.rng
         for r, reals in (("i8", [-3, 5, 6]), ("u16", [0, 1, 2])):
             gapless = runs_of(reals) == 1
@@ -990,6 +994,11 @@ def build_plan(tier, seed):
         # a handful of cases covering every unsafe site and iterator representation: used by `setup`
         # (binding self-test) and as the Miri corpus
         pl.mini()
+    elif tier == "editions":
+        # the corpus of the edition twins (engine_rt): every feature alone / in every mode / all together on a gapless enum, an
+        # enum with holes, a two-variant pointer-sized enum, a 10-run enum; some of it in hostile scopes
+        pl.solo_cfgs(which={0, 1, 3, 6})
+        pl.contexts(kappas=("auto", "inline"))
     elif tier == "quick":
         reprs = QUICK_REPRS_FIXED + [rot[seed % len(rot)]]
         pl.shapes(reprs, per_repr_small=110, per_repr_large=25)
@@ -1047,7 +1056,7 @@ def build_plan(tier, seed):
 CARGO_TOML = """[package]
 name = "rtcorpus"
 version = "0.0.0"
-edition = "2021"
+edition = "%(edition)s"
 autobins = true
 
 [dependencies]
@@ -1082,7 +1091,7 @@ debug = false
 """
 
 
-def write_crate(pl, outdir, cases_per_bin=120, rustflags=True):
+def write_crate(pl, outdir, cases_per_bin=120, rustflags=True, edition="2021"):
     """returns meta: {"bins": [{"name", "src", "script", "cases":[{id, grp, gprop, label, start, decl, glue}]}]}"""
     import shutil
     here = os.path.dirname(os.path.abspath(__file__))
@@ -1092,7 +1101,9 @@ def write_crate(pl, outdir, cases_per_bin=120, rustflags=True):
     os.makedirs(os.path.join(outdir, "src", "bin"))
     os.makedirs(os.path.join(outdir, "scripts"))
     os.makedirs(os.path.join(outdir, ".cargo"))
-    open(os.path.join(outdir, "Cargo.toml"), "w").write(CARGO_TOML % {"rt": rt, "repo": REPO})
+    open(os.path.join(outdir, "Cargo.toml"), "w").write(CARGO_TOML % {"rt": rt, "repo": REPO, "edition": edition})
+    # edition 2015: absolute paths start at the crate root, where only `std` is declared implicitly
+    externs = ["extern crate core;", "extern crate enum_tools;", "extern crate rt;", "extern crate rtcorpus;"] if edition == "2015" else []
     shutil.copy(os.path.join(REPO, "Cargo.lock"), os.path.join(outdir, "Cargo.lock"))
     open(os.path.join(outdir, ".cargo", "config.toml"), "w").write(
         "[net]\noffline = true\n" + ("[build]\nrustflags = [\"--cfg\", \"enum_tools_verif\", \"--check-cfg\", \"cfg(enum_tools_verif)\"]\n" if rustflags else ""))
@@ -1108,10 +1119,10 @@ def write_crate(pl, outdir, cases_per_bin=120, rustflags=True):
         bins.append(cur)
     import contexts as cx
     meta = {"bins": [], "lib": {"src": "src/lib.rs", "cases": []}}
-    lib = ["#![no_std]", "#![allow(warnings)]"]
+    lib = ["#![no_std]", "#![allow(warnings)]"] + (["extern crate enum_tools;"] if edition == "2015" else [])
     for bi, groups in enumerate(bins):
         name = f"b{bi:03d}"
-        src = ["#![allow(warnings)]"]
+        src = ["#![allow(warnings)]"] + externs
         script, blocks, bm = [], {}, []
         mains = []
         for g in groups:
